@@ -584,6 +584,61 @@ fn run_long_dealing(cx: &mut CaseCx, case: &Value) {
   cx.outcome(format!("t={} k={}", t, k));
 }
 
+
+/// Two dealings A and B of the same secret share their evaluation points (sequential dealer): distinctness is
+/// about the POINT. Every sequence of length <= t+1 over {a_1..a_t, b_1..b_t}: fewer than t distinct points is
+/// refused; if the first occurrence of every point comes from one dealing the secret is recovered.
+fn run_same_point_other_value(cx: &mut CaseCx, case: &Value) {
+  let t = case["t"].as_u64().unwrap() as u32;
+  let tu = t as usize;
+  let se = sec_elems();
+  let secret = secret_bytes(&[se[7].clone(), se[2].clone()], 0);
+  let deal = |key: u64| -> Vec<Share> {
+    let mut rng = ScriptRng::new(&[], key);
+    Sharks(t).dealer_rng(&secret, &mut rng).map(|ev| ev.take(tu).collect()).unwrap_or_default()
+  };
+  let (a, b) = (deal(21), deal(22));
+  if a.len() != tu || b.len() != tu || a.iter().zip(b.iter()).any(|(x, y)| x.x != y.x) {
+    cx.count("dealings_do_not_share_points", 1);
+    return;
+  }
+  let pool: Vec<(char, usize, &Share)> = a.iter().enumerate().map(|(i, s)| ('a', i, s)).chain(b.iter().enumerate().map(|(i, s)| ('b', i, s))).collect();
+  for_each_seq(pool.len(), tu + 1, |seq| {
+    if seq.is_empty() || !cx.viols.is_empty() {
+      return;
+    }
+    let names: Vec<String> = seq.iter().map(|&k| format!("{}{}", pool[k].0, pool[k].1 + 1)).collect();
+    // first occurrence of every point
+    let mut first: Vec<(usize, char)> = vec![];
+    for &k in seq {
+      if !first.iter().any(|f| f.0 == pool[k].1) {
+        first.push((pool[k].1, pool[k].0));
+      }
+    }
+    let shares: Vec<Share> = seq.iter().map(|&k| pool[k].2.clone()).collect();
+    let sh = Sharks(t);
+    let got = guard(|| sh.recover(&shares).map_err(|e| e.to_string()));
+    cx.eval();
+    cx.count("states", 1);
+    cx.count("transitions", 1);
+    cx.nontrivial(fnv_str(&format!("{}|{:?}", t, seq)));
+    let d = || json!({"t": t, "collection": names});
+    if first.len() < tu {
+      match got {
+        Ok(Err(_)) => cx.count("refused_below_threshold", 1),
+        other => cx.viol("C06/same-point-other-value-counts", format!("the collection {:?} holds only {} distinct evaluation points (two dealings of one secret share their points) but recover returned {:?} instead of refusing", names, first.len(), other.map(|r| r.map(|b| hexs(&b)))), d()),
+      }
+    } else if first.iter().take(tu).all(|f| f.1 == first[0].1) && first.len() == tu {
+      if got != Ok(Ok(secret.clone())) {
+        cx.viol("C06/recover-differs/same-point-other-value", format!("in the collection {:?} the first share at every point comes from one dealing, yet recover does not return the secret: {:?}", names, got.map(|r| r.map(|b| hexs(&b)))), d());
+      } else {
+        cx.count("recovered_one_dealing_first", 1);
+      }
+    }
+  });
+  cx.outcome(format!("t={}", t));
+}
+
 /// every selection of a pool of t+2 shares (iterator + crafted random points)
 fn run_recover(cx: &mut CaseCx, case: &Value) {
   let t = case["t"].as_u64().unwrap() as u32;
@@ -918,6 +973,13 @@ pub fn spec() -> PropSpec {
         },
         run: run_long_dealing,
         min_counts: &[("shares_dealt_by_one_dealer", 5000), ("far_apart_shares_recover", 60)],
+      },
+      Check {
+        name: "same-point-other-value",
+        rule: "two dealings of one 2-element secret from the sequential dealer (same points, other values), t in {2,3,4}: EVERY sequence of length 1..t+1 over the 2t shares: fewer than t distinct POINTS is refused (a share that repeats a point with another value does not count), and where the first share at each of exactly t points comes from one dealing the secret is recovered",
+        gen: |_| [2u64, 3, 4].iter().map(|t| json!({"t": t})).collect(),
+        run: run_same_point_other_value,
+        min_counts: &[("refused_below_threshold", 300), ("recovered_one_dealing_first", 50)],
       },
       Check {
         name: "recovery-selections",
